@@ -147,13 +147,15 @@ macro_rules! txout_commit_harness {
                         assert!(vkind == 1);
                         if amount == 0 {
                             if unspendable(&sbytes) { assert!(e == TxOutError::ZeroValueCommitment); kani::cover!(true); }
-                            else { assert!(e == TxOutError::NonUnspendableZeroValue); kani::cover!(SLEN > 0); }
+                            else { assert!(e == TxOutError::NonUnspendableZeroValue); }
                         } else {
                             assert!(akind == 0 && e == TxOutError::UnExpectedNullAsset);
                         }
                     }
                 }
             }
+            // reachability of the spendable-zero case (impossible for the empty script, which is always unspendable)
+            kani::cover!(SLEN == 0 || (vkind == 1 && amount == 0 && !unspendable(&sbytes)));
             core::mem::forget(txout);
         }
     };
